@@ -28,7 +28,7 @@ U.fn(F, 'exec', attrs=['exec_allows_no_decreases_clause'],
               C('forall|j: int| 0 <= j < ws_files(db).len() ==> ret@.contains_key(#[trigger] ws_files(db)[j])', 'C13 C11', name='every file of the workspace has an entry (possibly empty: stale diagnostics get cleared)')],
      lift=[dict(closure=0, name='syntax_diagnostic', sig='(file_id: FileId, @CAPTURES@err: &SyntaxError) -> (ret: Diagnostic)', replace='|err| syntax_diagnostic(file_id, @CAPTURES@err)',
                 captures=[('source_root', '&SourceRoot', '&source_root')],
-                ensures=[C('ret.location.range == err.range'), C('ret.location.file == file_id', name='a syntax error is reported in the file whose parse produced it')])],
+                ensures=[C('ret.location.range == err.range', 'C13 C17', name='a syntax diagnostic carries the range of the syntax error'), C('ret.location.file == file_id', 'C13 C17', name='a syntax error is reported in the file whose parse produced it')])],
      outline=[dict(move=True, rx=r'diagnostic_list\.extend\(parse\.errors\(\)\.iter\(\)\.map\(.*?\}\)\)', name='o_extend_syntax',
                    sig='(diagnostic_list: &mut %s, parse: &syntax::Parse, file_id: FileId, source_root: &SourceRoot)' % DL, call='o_extend_syntax(&mut diagnostic_list, &parse, file_id, &source_root)',
                    ensures=['final(diagnostic_list)@.len() == old(diagnostic_list)@.len() + parse_errors(parse).len()',
